@@ -3448,3 +3448,55 @@ sf_get_chunk_data (const SF_CHUNK_ITERATOR * iterator, SF_CHUNK_INFO * chunk_inf
 
 	return SFE_BAD_CHUNK_FORMAT ;
 } /* sf_get_chunk_data */
+
+#ifdef LIBSNDFILE_VERIF
+/*
+** Verification hooks (compiled only with -DLIBSNDFILE_VERIF; see /verif/MANIFEST.json).
+** Pure observers: they never modify the SF_PRIVATE they look at.
+*/
+
+int sf_verif_check_invariants (SNDFILE *sndfile) ;
+void sf_verif_get_positions (SNDFILE *sndfile, sf_count_t *rd, sf_count_t *wr) ;
+
+int
+sf_verif_check_invariants (SNDFILE *sndfile)
+{	SF_PRIVATE *psf = (SF_PRIVATE *) sndfile ;
+	int mask = 0 ;
+
+	if (psf == NULL)
+		return 0 ;
+	if (psf->Magick != SNDFILE_MAGICK)
+		return 0x1 ;
+	if (psf->header.indx < 0 || psf->header.indx > psf->header.len)
+		mask |= 0x2 ;
+	if (psf->header.end < 0 || psf->header.end > psf->header.len)
+		mask |= 0x4 ;
+	if (psf->header.len < 0 || (psf->header.len > 0 && psf->header.ptr == NULL))
+		mask |= 0x8 ;
+	if (psf->rchunks.used > psf->rchunks.count)
+		mask |= 0x10 ;
+	if (psf->wchunks.used > psf->wchunks.count)
+		mask |= 0x20 ;
+	if (psf->file.mode == SFM_READ && (psf->read_current < 0 || psf->read_current > psf->sf.frames))
+		mask |= 0x40 ;
+	if (psf->write_current < 0)
+		mask |= 0x80 ;
+	if (psf->parselog.indx < 0 || psf->parselog.indx >= SIGNED_SIZEOF (psf->parselog.buf))
+		mask |= 0x100 ;
+
+	return mask ;
+} /* sf_verif_check_invariants */
+
+void
+sf_verif_get_positions (SNDFILE *sndfile, sf_count_t *rd, sf_count_t *wr)
+{	SF_PRIVATE *psf = (SF_PRIVATE *) sndfile ;
+
+	if (psf == NULL || psf->Magick != SNDFILE_MAGICK)
+	{	if (rd) *rd = -1 ;
+		if (wr) *wr = -1 ;
+		return ;
+		} ;
+	if (rd) *rd = psf->read_current ;
+	if (wr) *wr = psf->write_current ;
+} /* sf_verif_get_positions */
+#endif /* LIBSNDFILE_VERIF */
